@@ -128,4 +128,31 @@ def rawLogEntryFromLeaf (leafInput extraData : Bytes) : Except Err RawLogEntry :
         | .ok _ => .error .structural
       else .error .unsupported
 
+/-! ## JSON API messages → internal structures (types.go), base64 taken as already undone
+
+`AddChainResponse.ToSignedCertificateTimestamp` and `GetSTHResponse.ToSignedTreeHead`: the id / root hash must be
+32 bytes, the signature field must be exactly one `DigitallySigned` (no trailing bytes). `ext` is the decoded
+`extensions` string (encoding/base64 is observed by the harness, not modelled here). -/
+
+def toSCT (version : Nat) (id : Bytes) (timestamp : Nat) (ext : Bytes) (sig : Bytes) : Option Rfc.SCT :=
+  if id.length = 32 then
+    match Rfc.complete (Rfc.decDigitallySigned sig) with
+    | some d => some ⟨version, id, timestamp, ext, d⟩
+    | none => none
+  else none
+
+structure STH where
+  treeSize : Nat
+  timestamp : Nat
+  rootHash : Bytes
+  signature : Rfc.DigitallySigned
+deriving Repr, DecidableEq
+
+def toSTH (treeSize timestamp : Nat) (root : Bytes) (sig : Bytes) : Option STH :=
+  if root.length = 32 then
+    match Rfc.complete (Rfc.decDigitallySigned sig) with
+    | some d => some ⟨treeSize, timestamp, root, d⟩
+    | none => none
+  else none
+
 end CtWire
